@@ -92,13 +92,16 @@ class RollingReduction(Expr):
             columns = [col for col in self.frame.columns if col in columns]
             if columns == self.frame.columns:
                 return
-            if self.groupby_kwargs is not None:
+            if self.groupby_kwargs is not None or columns != parent.columns:
+                # The parent projection is still needed: it fixes the column
+                # order and drops columns that only other dependents use
                 return type(parent)(
                     type(self)(self.frame[columns], *self.operands[1:]),
                     *parent.operands[1:],
                 )
-            if len(columns) == 1:
-                columns = columns[0]
+            # Same labels in the same order; reuse the parent's key so that
+            # a scalar gives a Series and a list gives a DataFrame
+            columns = parent.operand("columns")
             return type(self)(self.frame[columns], *self.operands[1:])
 
     @property
